@@ -68,7 +68,12 @@ def generate(rng, tier="quick"):
         if cands:
             extra = wl.gen_config(rng, tbl, max_ctx=2, max_tests=2)
             extra["carrier"], extra["build"], extra["share_document"], extra["layout"] = "dict", "direct", False, "contexts"
-            scn["add_after_run"] = {"config": extra, "on": rng.subset(cands, 0.6, at_least=1)}
+            # windows of the added contexts differ from the existing ones: whether "the same window" spelled in another
+            # type (string vs Timestamp) is the same Context is not something the property settles
+            taken = {pl.context_key(c)[:2] for c in cfg["contexts"]}
+            extra["contexts"] = [c for c in extra["contexts"] if pl.context_key(c)[:2] not in taken]
+            if extra["contexts"]:
+                scn["add_after_run"] = {"config": extra, "on": rng.subset(cands, 0.6, at_least=1)}
     sids = {e["sid"] for c in cfg["contexts"] + (scn.get("alt_config") or {"contexts": []})["contexts"] + (scn.get("add_after_run") or {"config": {"contexts": []}})["config"]["contexts"] for e in c["entries"]}
     if single and sids <= set(tbl["cols"]):
         # NumpyStream given one bare array instead of a dict of arrays (it then serves every stream id,
